@@ -505,6 +505,65 @@ def rule_eof_token(ctx, f, rule="C03-G4"):
     ctx.floor(rule, n, 1, "bounded advances inside the token-scanning loops of the lexer")
 
 
+def _var_of(b, fl, l, depth=0):
+    """the user variable (or parameter) a temporary is a copy / re-borrow of"""
+    if l is None or depth > 6:
+        return l
+    ds = fl.defs.get(l, [])
+    if len(ds) == 1 and ds[0][0] == "assign" and not (1 <= l <= b["argc"]):
+        rv = ds[0][2]
+        if rv[0] == "use" and rv[1][0] in ("copy", "move") and len(rv[1][1]) == 1:
+            return _var_of(b, fl, rv[1][1][0], depth + 1)
+        if rv[0] in ("ref", "rawptr") and len(rv[1]) == 2 and rv[1][1][0] == "deref":
+            return _var_of(b, fl, rv[1][0], depth + 1)
+        if rv[0] in ("ref", "rawptr") and len(rv[1]) == 1:
+            return _var_of(b, fl, rv[1][0], depth + 1)
+    return l
+
+
+def rule_value_flow(ctx, f):
+    ctx.rule("C03-G5", "the cursor can reach the end of the buffer (set_pos clamps to buf.len() itself), and the name decoder cuts the literal run "
+             "before a #xx escape out of the remainder it searched, not out of another slice")
+    sp = f.body("parser::lexer::Lexer::<'a>::set_pos")
+    if sp is None:
+        ctx.lost("C03-G5", "Lexer::set_pos")
+    else:
+        fl = Flow(sp)
+        mins = [(bi, t) for bi, t in F.calls(sp) if last_seg(F.callee_name(t)) == "min"]
+        ctx.floor("C03-G5", len(mins), 1, "clamp in Lexer::set_pos")
+        for bi, t in mins:
+            ok = False
+            for a in t["args"]:
+                l = F.op_local(a)
+                ats = fl.origins(l, passthrough=()) if l is not None else []
+                if any(x[0] == "call" and last_seg(x[1]) == "len" for x in ats) and not any(x[0] == "binop" or (x[0] == "call" and last_seg(x[1]) != "len") for x in ats):
+                    ok = True
+            ctx.check(ok, "C03-G5", "set_pos#clamp", "set_pos does not clamp to buf.len() itself: a position one short of the end means the end of the input is never "
+                      "reported, and the last token of a buffer is read again and again", t["span"], detail="wanted.min(self.buf.len())")
+    dn = f.body("parser::decode_name")
+    if dn is None:
+        ctx.lost("C03-G5", "parser::decode_name")
+        return
+    fl = Flow(dn)
+    searched = set()
+    for bi, t in F.calls(dn):
+        if last_seg(F.callee_name(t)) == "position" and t["args"]:
+            il = F.op_local(t["args"][0])
+            for a in fl.origins(il) if il is not None else []:
+                if a[0] == "call" and last_seg(a[1]) == "iter" and a[3]["args"]:
+                    searched.add(_var_of(dn, fl, F.op_local(a[3]["args"][0])))
+    cut = set()
+    ncut = 0
+    for bi, t in F.calls(dn):
+        if last_seg(F.callee_name(t)) == "index" and len(t["args"]) == 2 and "RangeTo<usize>" in t["arg_tys"][1]["s"]:
+            ncut += 1
+            cut.add(_var_of(dn, fl, F.op_local(t["args"][0])))
+    ctx.floor("C03-G5", ncut, 1, "literal run cut in decode_name")
+    ctx.check(bool(searched) and cut <= searched, "C03-G5", "decode_name#run-source", "the text before an escape is cut from another slice than the one the `#` was searched in "
+              "(%s vs %s): with two escapes in a name the text between them is replaced by the beginning of the name" % (sorted(map(str, cut)), sorted(map(str, searched))),
+              dn["span"], detail="&rest[..idx] where idx = rest.iter().position(..)")
+
+
 def rule_consumption(ctx, f):
     ctx.rule("C03-G3", "the string and hex-string branches advance the lexer by exactly the scanner's get_offset()")
     p = f.body("parser::_parse_with_lexer_ctx")
@@ -537,6 +596,7 @@ def run(ctx):
     rule_rollback(ctx, f)
     rule_lookahead(ctx, f)
     rule_eof_token(ctx, f)
+    rule_value_flow(ctx, f)
     rule_consumption(ctx, f)
     return ctx.finish(
         "Static analysis of MIR facts of the lexer / object parser: byte classes and escape tables extracted exactly (set refinement over "
